@@ -699,9 +699,12 @@ func (dm *DagModifier) Seek(offset int64, whence int) (int64, error) {
 	case io.SeekStart:
 		newoffset = uint64(offset)
 	case io.SeekEnd:
-		newoffset = uint64(fisize) - uint64(offset)
+		newoffset = uint64(fisize) + uint64(offset)
 	default:
 		return 0, ErrUnrecognizedWhence
+	}
+	if int64(newoffset) < 0 {
+		return 0, errors.New("dagmodifier: seek to a negative offset")
 	}
 
 	if int64(newoffset) > fisize {
